@@ -2,5 +2,7 @@ SPECIFICATION Spec
 CONSTANTS
   Dev = {"FqnWalksRefs"}
   MaxCross = 2
+  GrpSlots = {}
+  TClasses = {"Cls"}
 INVARIANT C10
 CHECK_DEADLOCK FALSE
